@@ -467,6 +467,12 @@ def transforms(rng, g):
         out.append(('reverse', map_rings(g, lambda r: r[::-1], lambda p: p)))
     if g[0] == 'PG' and len(g[1]) > 2:
         hs = g[1][1:]; rng.shuffle(hs); out.append(('permute_holes', ('PG', [g[1][0]] + hs)))
+    if g[0] == 'MPG' and any(len(p) > 2 for p in g[1]):
+        ps = []
+        for p in g[1]:
+            hs = p[1:]; rng.shuffle(hs); ps.append(p[:1] + hs)
+        out.append(('permute_holes', ('MPG', ps)))
+        out.append(('reverse_holes', ('MPG', [p[:1] + p[1:][::-1] for p in g[1]])))
     if g[0] in ('MPG', 'MLS', 'MPT', 'GC') and len(g[1]) > 1:
         el = list(g[1]); rng.shuffle(el); out.append(('permute_elements', (g[0], el)))
     return [(k, t) for k, t in out if in_bounds(t)]
@@ -739,6 +745,94 @@ def xml_cases(path, opname):
     return out
 
 
+
+# ------------------------------------------------------------------ elements inside holes of other elements
+D4 = [lambda p: (p[0], p[1]), lambda p: (-p[1], p[0]), lambda p: (-p[0], -p[1]), lambda p: (p[1], -p[0]),
+      lambda p: (-p[0], p[1]), lambda p: (p[0], -p[1]), lambda p: (p[1], p[0]), lambda p: (-p[1], -p[0])]
+
+
+def ring_points(r):
+    """vertices and (where integral) edge midpoints of a closed ring"""
+    out = []
+    for a, b in zip(r[:-1], r[1:]):
+        out.append(a)
+        if (a[0] + b[0]) % 2 == 0 and (a[1] + b[1]) % 2 == 0: out.append(((a[0] + b[0]) // 2, (a[1] + b[1]) // 2))
+    return out
+
+
+def grow_cells(rng, G, n, taken):
+    """a 4-connected set of n cells of a GxG grid that keeps one free cell (8-neighbourhood) from `taken`"""
+    def free(c): return 0 <= c[0] < G and 0 <= c[1] < G and all((c[0] + dx, c[1] + dy) not in taken for dx in (-1, 0, 1) for dy in (-1, 0, 1))
+    for _ in range(20):
+        c = (rng.randrange(G), rng.randrange(G))
+        if free(c): break
+    else: return None
+    cells = {c}
+    for _ in range(8 * n):
+        if len(cells) >= n: break
+        b = rng.choice(sorted(cells)); d = rng.choice([(1, 0), (-1, 0), (0, 1), (0, -1)]); c = (b[0] + d[0], b[1] + d[1])
+        if free(c): cells.add(c)
+    return cells
+
+
+def gen_elements_in_holes(rng):
+    """MultiPolygon: element A with several holes whose envelopes overlap or nest (U / L / C shaped, or traces of random cell
+    sets), other elements lying inside the holes and touching the hole ring at their first vertices, at one vertex, or not at
+    all; every hole order, ring start and direction is reached through the derived copies (all of them are generated)."""
+    t = rng.choice([2, 4, 6])
+    c = rng.random()
+    holes = []
+    if c < 0.6:
+        if rng.random() < 0.5:   # U-shaped hole, a rectangular hole in its notch
+            H1 = [(0, 0), (7 * t, 0), (7 * t, 6 * t), (5 * t, 6 * t), (5 * t, 2 * t), (2 * t, 2 * t), (2 * t, 6 * t), (0, 6 * t), (0, 0)]
+            H2 = square(2 * t + t // 2, 3 * t, 5 * t - t // 2, 6 * t - t // 2)
+        else:                    # L-shaped hole, a square hole in its corner notch
+            H1 = [(0, 0), (6 * t, 0), (6 * t, 2 * t), (2 * t, 2 * t), (2 * t, 6 * t), (0, 6 * t), (0, 0)]
+            H2 = square(3 * t, 3 * t, 5 * t, 5 * t)
+        holes = [H1, H2]
+        if rng.random() < 0.4: holes.append(square(8 * t, 0, 9 * t, 6 * t))
+        shell = square(-t, -t, 10 * t, 8 * t)
+        cells_of = None
+    else:
+        G = rng.randint(5, 7); u = 4; taken = set(); sets = []
+        for _ in range(rng.randint(2, 4)):
+            cs = grow_cells(rng, G, rng.randint(1, 7), taken)
+            if cs: sets.append(cs); taken |= cs
+        for cs in sets:
+            tr = trace_cells(cs, rng, split_p=0.0)
+            if len(tr) == 1 and len(tr[0]) == 1:
+                holes.append([(u * p[0], u * p[1]) for p in simplify_collinear(tr[0][0])])
+        if not holes: return None
+        shell = square(-u, -u, u * G + u, u * G + u)
+    if rng.random() < 0.5: rng.shuffle(holes)
+    elems = []
+    for H in holes:
+        if rng.random() < 0.25: continue
+        rp = ring_points(H)
+        xs = [p[0] for p in H]; ys = [p[1] for p in H]
+        inner = []
+        for _ in range(30):
+            q = (rng.randint(min(xs) + 1, max(xs) - 1), rng.randint(min(ys) + 1, max(ys) - 1))
+            # strictly inside by crossing parity (construction only; the specification decides the label)
+            ins = False
+            for a, b in zip(H[:-1], H[1:]):
+                if (a[1] > q[1]) != (b[1] > q[1]) and (q[0] - a[0]) * (b[1] - a[1]) * (1 if b[1] > a[1] else -1) < (b[0] - a[0]) * (q[1] - a[1]) * (1 if b[1] > a[1] else -1): ins = not ins
+            if ins and q not in rp and q not in inner: inner.append(q)
+            if len(inner) >= 2: break
+        if not inner: continue
+        k = rng.choice([0, 1, 2, 2, 2, 3])             # how many leading vertices of the element lie on the hole ring
+        on = rng.sample(rp, min(k, len(rp)))
+        ring = on + inner[:max(1, 3 - len(on))]
+        if len(ring) < 3: continue
+        if rng.random() < 0.3: ring = ring[::-1]
+        elems.append([close(ring)])
+    if not elems: return None
+    polys = [[shell] + holes] + elems
+    if rng.random() < 0.3: polys = polys[::-1]
+    f = rng.choice(D4); s = rng.choice([1, 1, 2, 3, 1000]); dx, dy = rng.randint(-500, 500), rng.randint(-500, 500)
+    return map_pts(('MPG', polys), lambda p: (s * f(p)[0] + dx, s * f(p)[1] + dy))
+
+
 # ------------------------------------------------------------------ case generation
 def gen_cases(ctx, runner, n_target):
     rng = ctx.rng
@@ -825,6 +919,11 @@ def gen_cases(ctx, runner, n_target):
             cx, cy, rr = rng.choice([2, 4, 6, 8, 10]), rng.choice([2, 4, 6, 8, 10]), rng.choice([1, 2, 2, 3])
             hs.append(rng.choice([diamond(cx, cy, rr), square(cx - rr, cy - rr, cx + rr, cy + rr), [(cx - rr, cy - rr), (cx + rr, cy - rr), (cx, cy + rr), (cx - rr, cy - rr)]]))
         add('coarse_holes', None, ('PG', [square(0, 0, N, N)] + hs))
+    # elements inside holes of other elements (holes with overlapping / nested envelopes); all derived copies are generated
+    for _ in range(3 * n_each):
+        g = gen_elements_in_holes(rng)
+        if g is not None and constructible(g) and in_bounds(g):
+            cases.append(dict(label='elements_in_holes', intended=None, g=g, derive_all=True))
     return cases
 
 
@@ -861,7 +960,7 @@ def run(ctx):
     base_n = len(cases)
     for i in range(base_n):
         c = cases[i]
-        if c['g'] is None or ctx.rng.random() > (0.2 if ctx.quick else 0.3): continue
+        if c['g'] is None or (not c.get('derive_all') and ctx.rng.random() > (0.2 if ctx.quick else 0.3)): continue
         for kind, t in transforms(ctx.rng, c['g']):
             cases.append(dict(label='derived:' + kind, intended=None, g=t, parent=i))
     exps = [ctx.rng.choice([0, 0, 0, 1, -1, -7, 5, 10, -20]) for _ in cases]
